@@ -29,7 +29,7 @@ OUT_OF_SCOPE = {"xgi.drawing.draw:draw_directed_dyads": "not among the functions
 def run(ctx):
     repo = ctx.repo
     res = Result(PROP)
-    res.rules = ["K1", "K2", "K5", "L-KEYS", "L-ORDER", "L-RANGE", "L-CUT"]
+    res.rules = ["K1", "K2", "K5", "L-KEYS", "L-ORDER", "L-RANGE", "L-CUT", "L-FACEID"]
     res.explanation = (
         "Narrow claim: kind inference (labels vs positions) over the layout and drawing modules, key provenance of the "
         "dict every layout returns, and agreement of the permutation applied to per-edge style arrays and patches. "
@@ -55,6 +55,12 @@ def run(ctx):
     check_order(repo, res)
     check_range(repo, res, fns)
     check_cut(repo, res)
+    from .common import pattern_lint, raw_tuple_dedupe_sites
+
+    pattern_lint(res, PROP, "L-FACEID", fns, raw_tuple_dedupe_sites,
+                 "def _dyads(simplices):\n    return dict.fromkeys(subfaces(simplices, order=1))\n",
+                 lambda nd: f"`{unparse(nd, 60)}` de-duplicates faces by the tuples a combinations-style enumeration yields; a two-node face shared by two simplices can come out as (a, b) from one and (b, a) from the other, survives twice and is drawn as two lines (one line per two-node simplex is lost)",
+                 "raw combination tuples used as identities")
     return res
 
 
